@@ -1,0 +1,17 @@
+// SPDX-FileCopyrightText: 2026 The Pion community <https://pion.ly>
+// SPDX-License-Identifier: MIT
+
+//go:build verif
+
+package state
+
+// VerifTrafficHook, when set by a verification harness, observes every DTLS 1.3
+// traffic generation at the moment it is installed. It is the DTLS 1.3 analogue
+// of the key log writer and exists only in builds tagged "verif".
+var VerifTrafficHook func(keys *TrafficKeyState, write, read *TrafficGeneration) //nolint:gochecknoglobals
+
+func verifTrafficInstalled(keys *TrafficKeyState, write, read *TrafficGeneration) {
+	if hook := VerifTrafficHook; hook != nil {
+		hook(keys, write, read)
+	}
+}
